@@ -97,9 +97,14 @@ func randInt(f, t int64) (string, error) {
 		t = defaultMaxRandValue
 	}
 	if t == f {
-		f = t + defaultMaxRandValue
+		// a range of one number (the bounds may come from a response or a data source)
+		return strconv.FormatInt(f, 10), nil
 	}
-	n := rand.Int63n(t - f)
+	d := t - f
+	if d <= 0 {
+		return "", fmt.Errorf("range from %d to %d is too large", f, t)
+	}
+	n := rand.Int63n(d)
 	n += f
 	return strconv.FormatInt(n, 10), nil
 }
